@@ -5,8 +5,10 @@ import GinjaxVerif.Lemmas.C05
 
 For `d ∈ {2, 3}` the quantifier "every `g ∈ B_d`, every index tuple" is finite (8 resp. 48 group
 elements, `d^d` tuples): it is decided by the kernel on the symbol *as the code builds it*
-(`permutation_parity` by cycle counting) and transferred to `g : SP d`.  The general-`d` identity is
-stated (`leviCivita_sign_statement`), not proved.
+(`permutation_parity` by cycle counting) and transferred to `g : SP d`.  The general-`d` identity
+`leviCivita_sign_statement` is stated here and proved in `Lemmas/C05LCGeneral.lean`
+(`LCSign_general`, `leviCivita_sign_general`; `Properties/C05.lean: leviCivita_sign`) from the
+correctness of the marking loop (`permParity_eq_sign`).
 -/
 namespace GinjaxVerif.C05
 open GinjaxVerif
@@ -98,7 +100,8 @@ theorem LCSign_of_check {d : Nat} (dflt : Fin d) (h : lcCheckAll d dflt = true) 
     have h0' : leviCivitaSym d (m.map g.σ) = 0 := by simp [leviCivitaSym, hm]
     rw [h0, h0']; simp
 
-/-- general dimension: stated, not proved -/
+/-- general dimension: the statement; proved as `leviCivita_sign_general`
+(`Lemmas/C05LCGeneral.lean`) / `leviCivita_sign` (`Properties/C05.lean`) -/
 def leviCivita_sign_statement : Prop := ∀ (d : Nat) (g : SP d), LCSign g
 
 theorem LCSign_two (g : SP 2) : LCSign g := LCSign_of_check 0 lcCheckAll2 g
